@@ -97,6 +97,7 @@ type mkItem struct {
 	Sh    bool     `json:"sh"`
 	Raw   []int    `json:"raw"`
 	Close string   `json:"close"`
+	RK    string   `json:"rk"` // ropen: select | plural | ordinal
 }
 
 func mkInts(s []int) []int {
@@ -129,6 +130,8 @@ func (it mkItem) MarshalJSON() ([]byte, error) {
 		return json.Marshal(map[string]any{"k": it.K, "props": mkProps(it.Props)})
 	case "nomarkup":
 		return json.Marshal(map[string]any{"k": it.K, "raw": mkInts(it.Raw), "close": it.Close})
+	case "ropen":
+		return json.Marshal(map[string]any{"k": it.K, "rk": it.RK, "props": mkProps(it.Props), "raw": mkInts(it.Raw), "close": it.Close})
 	case "mal":
 		return json.Marshal(map[string]any{"k": it.K, "raw": mkInts(it.Raw)})
 	}
@@ -274,6 +277,12 @@ func (l mkLayout) item(it mkItem) string {
 			end = l.closeTag("")
 		}
 		return "[" + l.ws(0.05) + "nomarkup" + l.ws(0.08) + "]" + mkStr(it.Raw) + end
+	case "ropen":
+		end := l.closeTag(it.RK)
+		if it.Close == "all" {
+			end = l.closeTag("")
+		}
+		return l.marker(it.RK, it.Props, false, false) + mkStr(it.Raw) + end
 	case "mal":
 		return mkStr(it.Raw)
 	}
